@@ -11,7 +11,12 @@
 (***************************************************************************)
 EXTENDS Naturals, Sequences, FiniteSets, TLC
 
-CONSTANTS W, MaxBits, MaxShift
+CONSTANTS W, MaxBits, MaxShift,
+          MoveKeepsSize,  \* TRUE: the defaulted move operations (m_size is copied, the vector is emptied);
+                          \* FALSE: the move operations leave the source empty (proposed fix C03-03)
+          ObserveMoved,   \* TRUE: the moved-from object is kept and observed (re = 0 moves are explored)
+          Targets,        \* objects the model checker applies operations to
+          OtherSeqs       \* bit sequences the non-target object may be given directly
 
 VARIABLES buf,   \* buf[k]: sequence of blocks; a block is a function 1..W -> {0,1} (bit j-1 at index j)
           msz,   \* msz[k]: m_size
@@ -147,7 +152,21 @@ CtorNV(k, n, v) == Do("CtorNV", k, [n |-> n, v |-> v],
 CtorIL(k, bits) == Do("CtorIL", k, [bits |-> bits],
                       CopyBits(FillB(BlockCount(Len(bits)), BZero), bits), Len(bits), "own", Void)
 CtorBlocks(k, bl) == Do("CtorBlocks", k, [blocks |-> bl], BlocksOf(bl), Len(bl) * W, "own", Void)
+CtorAlloc(k)    == Do("CtorAlloc", k, NoArg, <<>>, 0, "own", Void)
 CtorCopy(k)     == Do("CtorCopy", k, NoArg, buf[Other(k)], msz[Other(k)], "own", Void)
+\* move construction / assignment: the vector is moved (the source's becomes empty), m_size is copied or reset;
+\* re = 1: the harness destroys the source and default-constructs it again
+DoMove(op, k, re) ==
+    LET o == Other(k)
+        left == IF re = 1 \/ ~MoveKeepsSize THEN 0 ELSE msz[o]
+    IN /\ kind[1] = "own" /\ kind[2] = "own"
+       /\ pre'  = [obj |-> AbsObj, kind |-> kind]
+       /\ buf'  = IF k = 1 THEN <<buf[2], <<>>>> ELSE <<<<>>, buf[1]>>
+       /\ msz'  = IF k = 1 THEN <<msz[2], left>> ELSE <<left, msz[1]>>
+       /\ UNCHANGED kind
+       /\ last' = [op |-> op, k |-> k, a |-> [re |-> re], res |-> Void]
+CtorMove(k, re)   == DoMove("CtorMove", k, re)
+MoveAssign(k, re) == DoMove("MoveAssign", k, re)
 CtorView(k, bl, n) == /\ BlockCount(n) = Len(bl)
                       /\ Do("CtorView", k, [blocks |-> bl, n |-> n], ZeroUnused(BlocksOf(bl), n), n, "view", Void)
 
@@ -159,12 +178,18 @@ AssignIL(k, bits) == Own(k) /\
 AssignBlocks(k, bl) == Own(k) /\
     LET v1 == ResizeImpl(buf[k], msz[k], Len(bl) * W, 0) IN
     Mut("AssignBlocks", k, [blocks |-> bl], [i \in 1..Len(v1) |-> BlocksOf(bl)[i]], Len(bl) * W, Void)
-CopyAssign(k) == Own(k) /\ Mut("CopyAssign", k, NoArg, buf[Other(k)], msz[Other(k)], Void)
+Src(k, sf) == IF sf = 1 THEN k ELSE Other(k)
+SelfArg(sf) == [self |-> sf]
+CopyAssign(k, sf) == Own(k) /\ Mut("CopyAssign", k, SelfArg(sf), buf[Src(k, sf)], msz[Src(k, sf)], Void)
 
 Resize(k, n, v) == Own(k) /\ Mut("Resize", k, [n |-> n, v |-> v], ResizeImpl(buf[k], msz[k], n, v), n, Void)
 Resize1(k, n)   == Own(k) /\ Mut("Resize1", k, [n |-> n], ResizeImpl(buf[k], msz[k], n, 0), n, Void)
 ResizeView(k, n) == kind[k] = "view" /\ Obs("ResizeView", k, [n |-> n], IF n # msz[k] THEN Exc("runtime_error") ELSE Void)
 Clear(k)        == Own(k) /\ Mut("Clear", k, NoArg, <<>>, 0, Void)
+\* reserve(new_cap): m_buffer.reserve(compute_block_count(new_cap)); capacity() = m_buffer.capacity() * bits per block
+Reserve(k, n)   == Own(k) /\ Obs("Reserve", k, [n |-> n],
+                       Ok(<<(IF BlockCount(n) > Len(buf[k]) THEN BlockCount(n) ELSE Len(buf[k])) * W>>))
+MaxSize(k)      == Own(k) /\ Obs("MaxSize", k, NoArg, Ok(<<1073741824>>))
 PushBack(k, v)  == Own(k) /\
     LET s == msz[k]  v1 == ResizeImpl(buf[k], s, s + 1, 0) IN
     Mut("PushBack", k, [v |-> v], SetPosImpl(v1, s, v), s + 1, Void)
@@ -183,22 +208,30 @@ Flip(k, i)   == i < msz[k] /\ Mut("Flip", k, [i |-> i], FlipPosImpl(buf[k], i), 
 ShlEq(k, p)  == Mut("ShlEq", k, [p |-> p], ShlImpl(buf[k], msz[k], p), msz[k], Void)
 ShrEq(k, p)  == Mut("ShrEq", k, [p |-> p], ShrImpl(buf[k], msz[k], p), msz[k], Void)
 SameSize(k)  == msz[k] = msz[Other(k)]
-AndEq(k) == SameSize(k) /\ Mut("AndEq", k, NoArg, BinImpl(BAndB, buf[k], buf[Other(k)]), msz[k], Void)
-OrEq(k)  == SameSize(k) /\ Mut("OrEq", k, NoArg, BinImpl(BOrB, buf[k], buf[Other(k)]), msz[k], Void)
-XorEq(k) == SameSize(k) /\ Mut("XorEq", k, NoArg, BinImpl(BXorB, buf[k], buf[Other(k)]), msz[k], Void)
+BinOK(k, sf) == sf = 1 \/ SameSize(k)
+AndEq(k, sf) == BinOK(k, sf) /\ Mut("AndEq", k, SelfArg(sf), BinImpl(BAndB, buf[k], buf[Src(k, sf)]), msz[k], Void)
+OrEq(k, sf)  == BinOK(k, sf) /\ Mut("OrEq", k, SelfArg(sf), BinImpl(BOrB, buf[k], buf[Src(k, sf)]), msz[k], Void)
+XorEq(k, sf) == BinOK(k, sf) /\ Mut("XorEq", k, SelfArg(sf), BinImpl(BXorB, buf[k], buf[Src(k, sf)]), msz[k], Void)
 \* operators returning a temporary: copy (blocks + size), then the compound form
 Not(k)    == Obs("Not", k, NoArg, Ok(BitsValImpl(FlipAllImpl(buf[k], msz[k]), msz[k])))
-And(k)    == SameSize(k) /\ Obs("And", k, NoArg, Ok(BitsValImpl(BinImpl(BAndB, buf[k], buf[Other(k)]), msz[k])))
-Or(k)     == SameSize(k) /\ Obs("Or", k, NoArg, Ok(BitsValImpl(BinImpl(BOrB, buf[k], buf[Other(k)]), msz[k])))
-Xor(k)    == SameSize(k) /\ Obs("Xor", k, NoArg, Ok(BitsValImpl(BinImpl(BXorB, buf[k], buf[Other(k)]), msz[k])))
+And(k, sf) == BinOK(k, sf) /\ Obs("And", k, SelfArg(sf), Ok(BitsValImpl(BinImpl(BAndB, buf[k], buf[Src(k, sf)]), msz[k])))
+Or(k, sf)  == BinOK(k, sf) /\ Obs("Or", k, SelfArg(sf), Ok(BitsValImpl(BinImpl(BOrB, buf[k], buf[Src(k, sf)]), msz[k])))
+Xor(k, sf) == BinOK(k, sf) /\ Obs("Xor", k, SelfArg(sf), Ok(BitsValImpl(BinImpl(BXorB, buf[k], buf[Src(k, sf)]), msz[k])))
 Shl(k, p) == Obs("Shl", k, [p |-> p], Ok(BitsValImpl(ShlImpl(buf[k], msz[k], p), msz[k])))
 Shr(k, p) == Obs("Shr", k, [p |-> p], Ok(BitsValImpl(ShrImpl(buf[k], msz[k], p), msz[k])))
-Swap(k) == /\ Own(1) /\ Own(2)
-           /\ pre' = [obj |-> AbsObj, kind |-> kind]
-           /\ buf' = <<buf[2], buf[1]>> /\ msz' = <<msz[2], msz[1]>> /\ UNCHANGED kind
-           /\ last' = [op |-> "Swap", k |-> k, a |-> NoArg, res |-> Void]
+\* swap(rhs): std::swap of the two buffers and of the two sizes (for views: of the two spans); std::swap / ADL swap
+\* of two owning bitsets is three moves, whose net effect is the same whatever a move leaves behind
+Swap(k, how, sf) ==
+    LET o == Src(k, sf) IN
+        /\ kind[k] = kind[o]
+        /\ (kind[k] = "view" \/ sf = 1) => how = "member"
+        /\ pre' = [obj |-> AbsObj, kind |-> kind]
+        /\ buf' = IF o = k THEN buf ELSE <<buf[2], buf[1]>>
+        /\ msz' = IF o = k THEN msz ELSE <<msz[2], msz[1]>>
+        /\ UNCHANGED kind
+        /\ last' = [op |-> "Swap", k |-> k, a |-> [how |-> how, self |-> sf], res |-> Void]
 \* at(i): range check on the bit index, then the element reference
-At(k, i) == Obs("At", k, [i |-> i], IF i >= msz[k] THEN Exc("out_of_range") ELSE Ok(<<BitAtImpl(buf[k], i)>>))
+At(k, c, i) == Obs("At", k, [c |-> c, i |-> i], IF i >= msz[k] THEN Exc("out_of_range") ELSE Ok(<<BitAtImpl(buf[k], i)>>))
 Read(k, path, i) ==
     /\ i < msz[k]
     /\ path \in {"front", "cfront"} => i = 0
@@ -215,24 +248,36 @@ RefWrite(k, path, i, wk, v, j) ==
                    [] wk = "xor"    -> IF v = 1 THEN FlipPosImpl(buf[k], i) ELSE buf[k]
                    [] wk = "flip"   -> FlipPosImpl(buf[k], i)
                    [] wk = "aref"   -> SetPosImpl(buf[k], i, BitAtImpl(buf[k], j))
+                   [] wk = "ptr"    -> SetPosImpl(buf[k], i, v)
        IN Mut("RefWrite", k, [path |-> path, i |-> i, wk |-> wk, v |-> v, j |-> j], nb, msz[k], Void)
+
+\* std::fill over [begin() + i, begin() + j): one reference assignment per position
+RECURSIVE FillFrom(_, _, _, _)
+FillFrom(v, i, j, x) == IF i >= j THEN v ELSE FillFrom(SetPosImpl(v, i, x), i + 1, j, x)
+Fill(k, i, j, x) == i <= j /\ j <= msz[k] /\ Mut("Fill", k, [i |-> i, j |-> j, v |-> x], FillFrom(buf[k], i, j, x), msz[k], Void)
 
 \* ---------------------------------------------------------------- next-state relation
 Sizes == 0..MaxBits
 BitSeqs(n) == UNION {[1..m -> Bit] : m \in 0..n}
 LimbSeqs(n) == UNION {[1..m -> {<<x>> : x \in 0..(2 ^ W - 1)}] : m \in 0..n}
 Idx(k) == 0..(msz[k] - 1)
-ReadPaths == {"cindex", "front", "back", "iter", "riter", "neg"}
+ReadPaths == {"cindex", "front", "back", "iter", "riter", "neg", "data", "blockit"}
 WritePaths == {"index", "front", "back"}
-WriteKinds == {"assign", "and", "or", "xor", "flip", "aref"}
+WriteKinds == {"assign", "and", "or", "xor", "flip", "aref", "ptr"}
 
 Init == /\ buf = <<<<>>, <<>>>> /\ msz = <<0, 0>> /\ kind = <<"own", "own">>
         /\ last = [op |-> "Init", k |-> 0, a |-> NoArg, res |-> Void]
         /\ pre = [obj |-> <<<<>>, <<>>>>, kind |-> <<"own", "own">>]
 
 NextK(k) ==
-    \/ CtorDefault(k) \/ CtorCopy(k) \/ CopyAssign(k) \/ Clear(k) \/ PopBack(k) \/ Swap(k)
-    \/ \E n \in Sizes : CtorN(k, n) \/ Resize1(k, n) \/ ResizeView(k, n)
+    \/ CtorDefault(k) \/ CtorAlloc(k) \/ CtorCopy(k) \/ Clear(k) \/ PopBack(k) \/ MaxSize(k)
+    \/ \E sf \in {0, 1} : CopyAssign(k, sf)
+    \* calls that change the other object as well: only where both objects are targets (the single-target
+    \* configurations keep the second object inside OtherSeqs)
+    \/ Targets = {1, 2} /\ \E how \in {"member", "std", "adl"}, sf \in {0, 1} : Swap(k, how, sf)
+    \/ Targets = {1, 2} /\ \E re \in (IF ObserveMoved THEN {0, 1} ELSE {1}) : CtorMove(k, re) \/ MoveAssign(k, re)
+    \/ \E n \in Sizes : CtorN(k, n) \/ Resize1(k, n) \/ ResizeView(k, n) \/ Reserve(k, n)
+    \/ Reserve(k, MaxBits + W)
     \/ \E n \in Sizes, v \in Bit : CtorNV(k, n, v) \/ AssignNV(k, n, v) \/ Resize(k, n, v)
     \/ \E b \in BitSeqs(MaxBits) : CtorIL(k, b) \/ AssignIL(k, b)
     \/ \E bl \in LimbSeqs(MaxBits \div W) : CtorBlocks(k, bl) \/ AssignBlocks(k, bl)
@@ -241,14 +286,20 @@ NextK(k) ==
     \/ SetAll(k) \/ ResetAll(k) \/ FlipAll(k) \/ Not(k)
     \/ \E i \in Idx(k) : Set1(k, i) \/ ResetBit(k, i) \/ Flip(k, i) \/ (\E v \in Bit : Set(k, i, v))
     \/ \E p \in 0..MaxShift : ShlEq(k, p) \/ ShrEq(k, p) \/ Shl(k, p) \/ Shr(k, p)
-    \/ AndEq(k) \/ OrEq(k) \/ XorEq(k) \/ And(k) \/ Or(k) \/ Xor(k)
-    \/ \E i \in 0..(BlockCount(MaxBits) * W + 1) : At(k, i)
+    \/ \E sf \in {0, 1} : AndEq(k, sf) \/ OrEq(k, sf) \/ XorEq(k, sf) \/ And(k, sf) \/ Or(k, sf) \/ Xor(k, sf)
+    \/ \E i \in 0..(BlockCount(MaxBits) * W + 1), c \in {"c", "m"} : At(k, c, i)
     \/ \E i \in Idx(k), path \in ReadPaths : Read(k, path, i)
     \/ \E i \in Idx(k), path \in WritePaths, wk \in WriteKinds, v \in Bit, j \in Idx(k) :
           /\ (wk \in {"flip", "aref"} => v = 0) /\ (wk # "aref" => j = 0)
           /\ RefWrite(k, path, i, wk, v, j)
+    \/ \E i \in 0..msz[k], j \in 0..msz[k], v \in Bit : Fill(k, i, j, v)
 
-Next == \E k \in {1, 2} : NextK(k)
+\* representative contents for a non-target object (deep single-target configurations)
+RepOther == UNION {{[i \in 1..n |-> 1], [i \in 1..n |-> i % 2]} : n \in {0, MaxBits - W, MaxBits - 1, MaxBits}}
+NoOther  == {}
+Both     == {1, 2}
+OnlyFirst == {1}
+Next == (\E k \in Targets : NextK(k)) \/ (\E k \in {1, 2} \ Targets : \E b \in OtherSeqs : CtorIL(k, b))
 SizeBound == msz[1] <= MaxBits /\ msz[2] <= MaxBits
 Spec == Init /\ [][Next]_ivars
 absview == <<buf, msz, kind>>
@@ -276,12 +327,18 @@ StepRefines == LET k == last'.k  a == last'.a  o == last'.op IN
     \/ o = "CtorNV"       /\ A!CtorNV(k, a.n, a.v)
     \/ o = "CtorIL"       /\ A!CtorIL(k, a.bits)
     \/ o = "CtorBlocks"   /\ A!CtorBlocks(k, a.blocks)
+    \/ o = "CtorAlloc"    /\ A!CtorAlloc(k)
     \/ o = "CtorCopy"     /\ A!CtorCopy(k)
+    \/ o = "CtorMove"     /\ A!CtorMove(k, a.re, AbsObj'[Other(k)])
+    \/ o = "MoveAssign"   /\ A!MoveAssign(k, a.re, AbsObj'[Other(k)])
+    \/ o = "Reserve"      /\ A!Reserve(k, a.n, last'.res.val[1])
+    \/ o = "MaxSize"      /\ A!MaxSize(k, last'.res.val[1])
+    \/ o = "Fill"         /\ A!Fill2(k, a.i, a.j, a.v)
     \/ o = "CtorView"     /\ A!CtorView(k, a.blocks, a.n)
     \/ o = "AssignNV"     /\ A!AssignNV(k, a.n, a.v)
     \/ o = "AssignIL"     /\ A!AssignIL(k, a.bits)
     \/ o = "AssignBlocks" /\ A!AssignBlocks(k, a.blocks)
-    \/ o = "CopyAssign"   /\ A!CopyAssign(k)
+    \/ o = "CopyAssign"   /\ A!CopyAssign(k, a.self)
     \/ o = "Resize"       /\ A!Resize(k, a.n, a.v)
     \/ o = "Resize1"      /\ A!Resize1(k, a.n)
     \/ o = "ResizeView"   /\ A!ResizeView(k, a.n)
@@ -297,17 +354,17 @@ StepRefines == LET k == last'.k  a == last'.a  o == last'.op IN
     \/ o = "Flip"         /\ A!Flip(k, a.i)
     \/ o = "ShlEq"        /\ A!ShlEq(k, a.p)
     \/ o = "ShrEq"        /\ A!ShrEq(k, a.p)
-    \/ o = "AndEq"        /\ A!AndEq(k)
-    \/ o = "OrEq"         /\ A!OrEq(k)
-    \/ o = "XorEq"        /\ A!XorEq(k)
+    \/ o = "AndEq"        /\ A!AndEq(k, a.self)
+    \/ o = "OrEq"         /\ A!OrEq(k, a.self)
+    \/ o = "XorEq"        /\ A!XorEq(k, a.self)
     \/ o = "Not"          /\ A!Not(k)
-    \/ o = "And"          /\ A!And(k)
-    \/ o = "Or"           /\ A!Or(k)
-    \/ o = "Xor"          /\ A!Xor(k)
+    \/ o = "And"          /\ A!And(k, a.self)
+    \/ o = "Or"           /\ A!Or(k, a.self)
+    \/ o = "Xor"          /\ A!Xor(k, a.self)
     \/ o = "Shl"          /\ A!Shl(k, a.p)
     \/ o = "Shr"          /\ A!Shr(k, a.p)
-    \/ o = "Swap"         /\ A!Swap(k)
-    \/ o = "At"           /\ A!At(k, a.i)
+    \/ o = "Swap"         /\ A!Swap(k, a.how, a.self)
+    \/ o = "At"           /\ A!At(k, a.c, a.i)
     \/ o = "Read"         /\ A!Read(k, a.path, a.i)
     \/ o = "RefWrite"     /\ A!RefWrite(k, a.path, a.i, a.wk, a.v, a.j)
 Refines == [][StepRefines]_ivars
